@@ -155,6 +155,9 @@ def run(prog, rep):
     rep.rule('R15.8', 'text -> tm: executed over the boundary years of int and int64 - a year inside the int range is stored unchanged in tm_year, '
                       'any other year ends in std::out_of_range, never in a wrapped tm_year', floor=1)
     check_tm_year(prog, rep)
+    rep.rule('R15.9', 'ISO duration parser, every instantiation: a text with a leading minus is refused with std::out_of_range up front exactly '
+                      'when the target rep is unsigned (a negative fraction would otherwise wrap in round<unsigned>)', floor=2)
+    check_negative_unsigned(prog, rep)
 
 
 # ------------------------------------------------------------------------------------------------ R15.2 SafeAddDuration (linear)
@@ -742,3 +745,81 @@ def check_tm_year(prog, rep):
             rep.finding('R15.8', 'To(text, tm)|year range', f.loc(), 'To(text, tm&): ' + bad, {'instantiation': f.id}, func=f.id)
         else:
             rep.ok('R15.8', site, sample={'years': years})
+
+
+# ------------------------------------------------------------------------------------------------ R15.9 negative text, unsigned target
+def check_negative_unsigned(prog, rep):
+    """ISO duration parser: a text with a leading '-' cannot be represented by a duration whose rep is unsigned. The magnitude checks further
+    down catch a non-zero integer part, but a negative fraction of a second ("-PT0.5S") reaches std::chrono::round<unsigned target>(-ns) and
+    wraps. Per instantiation of the parser: the flag set from `*pos == '-'` guards a throw of std::out_of_range whose condition - with the
+    flag true and the type-dependent parts as clang evaluated them for this instantiation - is true exactly when the rep is unsigned."""
+    def ev(f, e, d):
+        e = strip(e)
+        if e is None:
+            return None
+        if 'cv' in e and e['k'] not in ('DeclRefExpr',):
+            return bool(e['cv'])
+        if e['k'] == 'DeclRefExpr':
+            if e.get('d') == d:
+                return True
+            return bool(e['cv']) if 'cv' in e else None
+        if e['k'] == 'UnaryOperator' and e.get('op') == '!':
+            v = ev(f, e['c'][0], d)
+            return None if v is None else not v
+        if e['k'] == 'BinaryOperator' and e.get('op') in ('&&', '||'):
+            a, b = ev(f, e['c'][0], d), ev(f, e['c'][1], d)
+            if e['op'] == '&&':
+                return False if (a is False or b is False) else (None if (a is None or b is None) else True)
+            return True if (a is True or b is True) else (None if (a is None or b is None) else False)
+        return None
+    n = 0
+    for f in sorted(prog.funcs.values(), key=lambda g: g.id):
+        if f.body is None or 'convert_chrono.h' not in f.relfile:
+            continue
+        flags = set()
+        for x in f.walk():
+            if x['k'] == 'BinaryOperator' and x.get('op') == '=' or x['k'] == 'DeclStmt':
+                rhs = x['c'][-1] if x.get('c') else None
+                if rhs is not None and any(y['k'] == 'BinaryOperator' and y.get('op') == '==' and any(z.get('k') == 'CharacterLiteral' and z.get('cv') == 45
+                                                                                                    for z in f.walk(y)) for y in f.walk(rhs)):
+                    if x['k'] == 'DeclStmt':
+                        flags.update(dd['d'] for dd in x.get('decls', []))
+                    else:
+                        lhs = strip(x['c'][0])
+                        if lhs is not None and lhs['k'] == 'DeclRefExpr':
+                            flags.add(lhs['d'])
+        if not flags:
+            continue
+        m = re.search(r'std::chrono::duration<([\w ]+)[,>]', f.id)
+        if not m:
+            continue
+        info = INT_TYPES.get(m.group(1).strip())
+        if not info:
+            continue
+        unsigned_rep = not info[1]
+        n += 1
+        rep.touch(f)
+        d = sorted(flags)[0]
+        fires = False
+        for x in f.walk():
+            if x['k'] != 'IfStmt':
+                continue
+            c0, th = child(x, 'cond'), child(x, 'then')
+            if c0 is None or th is None or not any(y['k'] == 'DeclRefExpr' and y.get('d') == d for y in f.walk(c0)):
+                continue
+            throws = [y for y in f.walk(th) if y['k'] == 'CXXThrowExpr' and 'out_of_range' in str(y.get('tt'))]
+            if throws and ev(f, c0, d) is True:
+                fires = True
+        site = 'duration parser|rep %s|%s' % (m.group(1).strip(), f.id.split('|')[0][-40:])
+        if fires == unsigned_rep:
+            rep.ok('R15.9', site, sample={'rep': m.group(1).strip(), 'negative_text_refused_up_front': fires})
+        elif unsigned_rep:
+            rep.finding('R15.9', 'duration parser|negative text into unsigned rep', f.loc(),
+                        'ISO duration parser for a target with rep %s: no std::out_of_range is thrown for a text that starts with \'-\' (the guard is '
+                        'constant false for this instantiation): "-PT0.5S" reaches round<unsigned>(-ns) and returns a wrapped value' % m.group(1).strip(),
+                        {'instantiation': f.id}, func=f.id)
+        else:
+            rep.finding('R15.9', 'duration parser|negative text refused for a signed rep', f.loc(),
+                        'ISO duration parser for a target with signed rep %s refuses every negative text' % m.group(1).strip(), {'instantiation': f.id}, func=f.id)
+    if n < 2:
+        raise AnalysisBroken('R15.9: the sign flag of the ISO duration parser was found in %d instantiation(s) only' % n)
